@@ -304,6 +304,8 @@ pub fn run(run: &Run) {
 	for c in ["shadowing", "mutual-recursion", "closure-over-loop-var", "default-refers-to-param", "named-call", "super", "plus-field", "slice-step", "planted-error", "outcome:value"] {
 		run.require_class(c, 50);
 	}
+	// last clause of the property: experimental syntax against its documented desugaring (second build of the harness)
+	crate::props::c01x::run(run);
 }
 
 /// operand domain of the operator tables: every type, and within a type the pairs that distinguish orderings
@@ -410,6 +412,7 @@ pub fn replay(run: &Run, stage: &str, tape: Option<&[u16]>, _v: &Value) -> Optio
 		("programs-large", Some(t)) => Some(case(run, t, 7, 150)),
 		("operator-table", _) => _v["extra"]["index"].as_u64().map(op_table_case),
 		("object-reuse", _) => _v["extra"]["index"].as_u64().map(reuse_case),
+		(s, t) if s.starts_with("exp-") => crate::props::c01x::replay(s, t, _v),
 		_ => None,
 	}
 }
